@@ -43,6 +43,10 @@ def dags(tier):
     # between an absorbing and a non-absorbing successor (the returned policy there is the fallback rule)
     F.append(Skel('d4-fallback', [0, 1, 2, 'g'], {0: ('a',), 1: ('a', 'b'), 2: ('a',), 'g': ('a',)},
                   {(0, 'a'): (1, 'g'), (1, 'a'): ('g',), (1, 'b'): (2,), (2, 'a'): ('g',), ('g', 'a'): ('g',)}, absorbing=['g'], init=[0]))
+    # a stochastic action with three not-yet-solved successors: the labelling pass holds several states on its open stack at once, so its verdict must
+    # ACCUMULATE over the whole greedy envelope (an inconsistent state popped before a consistent one)
+    F.append(Skel('d5-wide', [0, 1, 2, 3, 'g'], {0: ('a',), 1: ('a',), 2: ('a',), 3: ('a',), 'g': ('a',)},
+                  {(0, 'a'): (1, 2, 3), (1, 'a'): ('g',), (2, 'a'): ('g',), (3, 'a'): ('g',), ('g', 'a'): ('g',)}, absorbing=['g'], init=[0]))
     if tier == 'thorough':
         F.append(Skel('d4-branch', [0, 1, 2, 'g'], {0: ('a', 'b'), 1: ('a', 'b'), 2: ('a',), 'g': ('a',)},
                       {(0, 'a'): (1, 2), (0, 'b'): (2,), (1, 'a'): ('g', 2), (1, 'b'): ('g',), (2, 'a'): ('g',), ('g', 'a'): ('g',)}, absorbing=['g'], init=[0, 1]))
